@@ -162,6 +162,7 @@ class ExecRun:
             ent['err'] = err_code(e)
             ent['exc'] = f'{type(e).__name__}: {e}'[:200]
             ent['states'] = self.w.states()
+            ent['counts'] = [[p.runtime_status().state_counts[s] for s in OST] for p in self.w.pipes]
             ent['pre_pools'] = self.trace[-1]['pools'] if self.trace else None
             try:
                 ent['pools_after_err'] = self.snapshot()
@@ -407,6 +408,33 @@ def gen_tick(rng, run, bad=None):
                 a[0] = [rng.choice(blocked)]
         elif bad == 'asg-order':
             a[0] = list(reversed(a[0]))
+        elif bad == 'asg-early-reuse':
+            # an assignment that fits only if the allocation of a container whose write-out ENDS in this tick (or
+            # that is suspended in this very tick for a single tick) were already free: it must be refused
+            cands = []
+            for pi, p in enumerate(ex.pools):
+                for c in p.suspending_containers:
+                    if c._suspend_ticks_left == 1:
+                        cands.append((pi, c.assignment.cpu, c.assignment.ram))
+                for (cid, ppi) in tick['susp']:
+                    if ppi == pi:
+                        c = next((x for x in p.active_containers if run.cid(x) == cid), None)
+                        if c is not None and max(1, int((c.assignment.ram / 20.0) / (1.0 / r['tps']))) == 1:
+                            cands.append((pi, c.assignment.cpu, c.assignment.ram))
+            if cands:
+                pi, vcpu, vram = rng.choice(cands)
+                others = [x for x in tick['asg'][:-1] if x[4] == pi]
+                fc = ex.pools[pi].avail_cpu_pool - sum(x[1] for x in others)
+                fr = ex.pools[pi].avail_ram_pool - sum(x[2] for x in others)
+                a[4] = pi
+                if rng.random() < 0.5 or r['over']:
+                    a[1] = fc + rng.randint(1, max(1, vcpu))
+                    a[2] = min(a[2], max(0.125, fr)) if not r['over'] else a[2]
+                else:
+                    a[1] = max(1, min(a[1], fc)) if fc >= 1 else 1
+                    a[2] = fr + rng.choice([0.125, vram / 2.0, vram])
+                if a[1] < 1:
+                    a[1] = 1
         elif bad == 'asg-two' and not r['multi']:
             free = [i for i in range(len(st)) if st[i] in (0, 5) and i not in taken]
             if free:
@@ -425,7 +453,8 @@ def gen_tick(rng, run, bad=None):
 
 
 BAD_KINDS = ['susp-mid', 'susp-dup', 'susp-unknown', 'susp-suspending', 'susp-wrongpool', 'susp-badpool', 'asg-cpu+1', 'asg-ram+',
-             'asg-pool', 'asg-empty', 'asg-cpu0', 'asg-ram0', 'asg-busy', 'asg-parent', 'asg-order', 'asg-two']
+             'asg-pool', 'asg-empty', 'asg-cpu0', 'asg-ram0', 'asg-busy', 'asg-parent', 'asg-order', 'asg-two',
+             'asg-early-reuse']
 
 
 def gen_history(rng, gen='G-exec', overcommit=None, max_ticks=None, p_bad=0.3, bad_kinds=None, bad_early=False,
@@ -441,6 +470,9 @@ def gen_history(rng, gen='G-exec', overcommit=None, max_ticks=None, p_bad=0.3, b
     bad_kind = rng.choice(bad_kinds or BAD_KINDS)
     idle = 0
     for i in range(n):
+        if bad_at is not None and bad_kind == 'asg-early-reuse' and i < bad_at and \
+                any(c._suspend_ticks_left == 1 for p in run.ex.pools for c in p.suspending_containers):
+            bad_at = i            # a write-out ends in this tick
         if bad_at is not None and bad_kind == 'susp-suspending' and i < bad_at and rng.random() < 0.5 and \
                 any(p.suspending_containers for p in run.ex.pools):
             bad_at = i            # a write-out is in progress now: ask for that container's suspension
@@ -586,5 +618,48 @@ def gen_overlap(rng, gen='G-exec-overlap'):
         cfg['ticks'].append(t)
         ent = run.step(t)
         if ent['err'] or all(x in (4, 5) for x in run.w.states()):
+            break
+    return cfg, run
+
+
+def gen_waves(rng, gen='G-exec-waves'):
+    """overcommitted pool; containers whose demand goes high - low - high again (three segments, or operators with
+    different footprints), started together with different phase lengths: the pool total can cross the capacity in
+    a tick in which no container exceeds a level it has reached before"""
+    tps = rng.choice([1, 2, 10])
+    n = rng.randint(2, 4)
+    cap = rng.choice([8, 16, 32])
+    pipes, segs = [], []
+
+    def seg(t, m):
+        return dict(baseline_cpu_seconds=float(t) / tps, cpu_scaling='const', storage_read_gb=0.0, memory_gb=float(m))
+    staggered = rng.random() < 0.6
+    for k in range(n):
+        hi = rng.choice([3, 4, 5, 6] if not staggered else [5, 6, 6]) * cap / 8.0
+        lo = rng.choice([0, 0.25, 0.5])
+        a, b, c = rng.randint(1, 4), rng.randint(1, 6), rng.randint(2, 6)
+        parts = [(a, hi), (b, lo), (c, hi)]
+        if staggered:
+            # first highs one after the other (each container alone at its level), second highs together: the total
+            # crosses the capacity while every container is at a level it has already visited
+            parts = ([(2 * k, lo)] if k else []) + [(2, hi), (2 * n - 2 * k - 1, lo), (c, hi)]
+        if rng.random() < 0.5:
+            pipes.append((rng.choice([1, 2, 3]), [[]]))
+            segs.append([[seg(t, m) for t, m in parts]])
+        else:
+            pipes.append((rng.choice([1, 2, 3]), [[j - 1] if j else [] for j in range(len(parts))]))
+            segs.append([[seg(t, m)] for t, m in parts])
+    cfg = dict(gen=gen, tps=tps, over=1, multi=1, npools=1, cpu=16, ram=cap, pipes=pipes, segs=segs, ticks=[], bad=None)
+    run = ExecRun(cfg)
+    first = run.w.first
+    t0 = dict(susp=[], asg=[(list(range(first[k], first[k] + len(pipes[k][1]))), 1, rng.choice([cap, cap, cap / 2.0 + 4]),
+                             pipes[k][0], 0) for k in range(n)])
+    cfg['ticks'].append(t0)
+    run.step(t0)
+    for _ in range(24):
+        t = dict(susp=[], asg=[])
+        cfg['ticks'].append(t)
+        ent = run.step(t)
+        if ent['err'] or not any(p['active'] for p in ent['pools']):
             break
     return cfg, run
